@@ -350,6 +350,7 @@ theorem getCoin_insFold (rel : Relevant) (t : Bool) (L : List CoinID) :
 
 /-- second pass of `createNextState`: one transaction -/
 def nextStep (env : Env) (t : Bool) (st : State) (tx : Tx) : Outcome State :=
+  if st.txs.any (fun t => t.hash = tx.hash) then .reject .duplicateTx else
   (if tx.kind = .faucet then handleFaucetTx env st tx else .ok st).bind fun st1 =>
   (Outcome.foldlM' (fun (coins : CoinMap) id => coins.removeCoin id t) st1.coins tx.inputs).bind fun coins2 =>
   (tx.baseFee st1.feeMultiplier).bind fun minFee =>
@@ -413,7 +414,10 @@ theorem getCoin_nextStep {env : Env} {t : Bool} {st st' : State} {tx : Tx}
       if k ∈ tx.inputs then none
       else if insertsMarker env tx = true ∧ k = markerOf env tx then some faucetMarker
       else st.coins.getCoin k := by
-  simp only [nextStep, Outcome.bind_eq_ok] at h
+  unfold nextStep at h
+  split at h
+  · cases h
+  simp only [Outcome.bind_eq_ok] at h
   obtain ⟨st1, h1, coins2, h2, minFee, -, h4⟩ := h
   split at h4
   · cases h4
